@@ -265,8 +265,8 @@ def pcfw(ctx, a, z, **kwargs):
         phi2 = ctx.arg(ctx.gamma(0.5 + ctx.j*n))
         phi2 = (ctx.loggamma(0.5+ctx.j*n) - ctx.loggamma(0.5-ctx.j*n))/2j
         rho = ctx.pi/8 + 0.5*phi2
-        # XXX: cancellation computing k
-        k = ctx.sqrt(1 + ctx.exp(2*ctx.pi*n)) - ctx.exp(ctx.pi*n)
+        # sqrt(1+exp(2*pi*n)) - exp(pi*n), written without cancellation
+        k = 1 / (ctx.sqrt(1 + ctx.exp(2*ctx.pi*n)) + ctx.exp(ctx.pi*n))
         C = ctx.sqrt(k/2) * ctx.exp(0.25*ctx.pi*n)
         yield C * ctx.expj(rho) * ctx.pcfu(ctx.j*n, z*ctx.expjpi(-0.25))
         yield C * ctx.expj(-rho) * ctx.pcfu(-ctx.j*n, z*ctx.expjpi(0.25))
